@@ -76,7 +76,7 @@ fn hostile_det_spec(rng: &mut Prng) -> Spec {
             9 => Op::Fork,
             10 => Op::Eq,
             11 => Op::Debug,
-            12 => Op::Snap(if rng.chance(1, 2) { SnapFmt::Bincode } else { SnapFmt::Json }),
+            12 => Op::Snap(*rng.pick(&[SnapFmt::Bincode, SnapFmt::Json, SnapFmt::BincodeFramed, SnapFmt::JsonFramed, SnapFmt::BincodeReader, SnapFmt::JsonReader, SnapFmt::JsonValue])),
             _ => Op::Fill(rng.range(0, 40) as u32),
         })
         .collect();
@@ -85,6 +85,256 @@ fn hostile_det_spec(rng: &mut Prng) -> Spec {
         spec.variant = "hostile_det_zero_word_state".into();
     }
     spec
+}
+
+/// A stored snapshot that comes back damaged: deserialising it may fail, it must not panic.
+fn hostile_snapshot_spec(rng: &mut Prng) -> Spec {
+    let mut spec = Spec { prop: "C14".into(), variant: "hostile_snapshot".into(), ..Default::default() };
+    let kind = if rng.chance(1, 2) {
+        *rng.pick(&[Kind::Isaac, Kind::Isaac64])
+    } else {
+        loop {
+            let k = *rng.pick(&DET_KINDS);
+            if k != Kind::Hc128 {
+                break k;
+            }
+        }
+    };
+    spec.kind = Some(kind);
+    if matches!(kind, Kind::Isaac | Kind::Isaac64) && rng.chance(1, 4) {
+        spec.core = Some(if kind == Kind::Isaac { crate::gens::CoreKind::IsaacCore } else { crate::gens::CoreKind::Isaac64Core });
+    }
+    spec.seed = Some(hostile_seed(rng, kind));
+    if let Some(SeedSpec::TryFromRng(src)) = &spec.seed {
+        spec.seed = Some(SeedSpec::FromRng(crate::seams::source::SourceSpec { fault: None, ..src.clone() }));
+    }
+    spec.pre = rng.below(pre_range(kind) + 1) as u32;
+    // aux[0]: damage class; aux[1]: how it is read back; aux[2]: seed of the damage
+    spec.aux = vec![rng.below(4), rng.below(3), rng.u64()];
+    spec
+}
+
+#[cfg(feature = "snap")]
+fn damage_json(v: &mut serde_json::Value, rng: &mut Prng) -> &'static str {
+    use serde_json::Value;
+    // collect the paths of all nodes
+    fn walk(v: &Value, path: &mut Vec<String>, out: &mut Vec<Vec<String>>) {
+        out.push(path.clone());
+        match v {
+            Value::Array(a) => {
+                // arrays of 256 numbers: only a few positions are interesting
+                for i in [0usize, 1, a.len() / 2, a.len().saturating_sub(1)] {
+                    if i < a.len() {
+                        path.push(i.to_string());
+                        walk(&a[i], path, out);
+                        path.pop();
+                    }
+                }
+            }
+            Value::Object(m) => {
+                for (k, x) in m {
+                    path.push(k.clone());
+                    walk(x, path, out);
+                    path.pop();
+                }
+            }
+            _ => {}
+        }
+    }
+    let mut paths = Vec::new();
+    walk(v, &mut Vec::new(), &mut paths);
+    // prefer containers: they carry the lengths
+    let containers: Vec<&Vec<String>> = paths
+        .iter()
+        .filter(|p| {
+            let mut n: &Value = v;
+            for k in p.iter() {
+                n = match n {
+                    Value::Array(a) => &a[k.parse::<usize>().unwrap()],
+                    Value::Object(m) => &m[k],
+                    _ => unreachable!(),
+                };
+            }
+            n.is_array() || n.is_object()
+        })
+        .collect();
+    let path: Vec<String> = if !containers.is_empty() && rng.chance(2, 3) { (*rng.pick(&containers)).clone() } else { rng.pick(&paths).clone() };
+    let mut node: &mut Value = v;
+    for k in &path {
+        node = match node {
+            Value::Array(a) => &mut a[k.parse::<usize>().unwrap()],
+            Value::Object(m) => m.get_mut(k).unwrap(),
+            _ => unreachable!(),
+        };
+    }
+    let big = [Value::from(u64::MAX), Value::from(-1i64), Value::from(1u64 << 32), Value::from(1e300), Value::from(0u64), Value::Null, Value::from("7"), Value::from(true), Value::Array(vec![]), Value::Object(Default::default())];
+    match node {
+        Value::Array(a) => match rng.below(6) {
+            0 => {
+                let x = a.last().cloned().unwrap_or(Value::from(1u64));
+                for _ in 0..*rng.pick(&[1usize, 2, 255, 256, 1000]) {
+                    a.push(x.clone());
+                }
+                "array_longer"
+            }
+            1 => {
+                let k = (*rng.pick(&[1usize, 2, 128, 255])).min(a.len());
+                a.truncate(a.len() - k);
+                "array_shorter"
+            }
+            2 => {
+                a.clear();
+                "array_empty"
+            }
+            3 => {
+                if !a.is_empty() {
+                    let i = rng.below(a.len() as u64) as usize;
+                    a[i] = rng.pick(&big).clone();
+                }
+                "element_replaced"
+            }
+            4 => {
+                let x = a.clone();
+                a.push(Value::Array(x));
+                "array_nested"
+            }
+            _ => {
+                *node = rng.pick(&big).clone();
+                "array_replaced"
+            }
+        },
+        Value::Object(m) => match rng.below(5) {
+            0 => {
+                let k: Vec<String> = m.keys().cloned().collect();
+                if !k.is_empty() {
+                    m.remove(rng.pick(&k));
+                }
+                "field_missing"
+            }
+            1 => {
+                m.insert("unexpected".into(), Value::from(1u64));
+                "field_unknown"
+            }
+            2 => {
+                let k: Vec<String> = m.keys().cloned().collect();
+                if !k.is_empty() {
+                    let key = rng.pick(&k).clone();
+                    let x = m.remove(&key).unwrap();
+                    m.insert(format!("{}_", key), x);
+                }
+                "field_renamed"
+            }
+            3 => {
+                // the object as a sequence of its values (what a non-self-describing writer would store)
+                let vals: Vec<Value> = m.values().cloned().collect();
+                *node = Value::Array(vals);
+                "object_as_sequence"
+            }
+            _ => {
+                *node = rng.pick(&big).clone();
+                "object_replaced"
+            }
+        },
+        _ => {
+            *node = rng.pick(&big).clone();
+            "scalar_replaced"
+        }
+    }
+}
+
+fn run_hostile_snapshot(spec: &Spec, st: &mut Stats) -> Result<(), E> {
+    #[cfg(not(feature = "snap"))]
+    {
+        let _ = (spec, st);
+        return Err(E::End(RunEnd::Discard("built_without_snap".into())));
+    }
+    #[cfg(feature = "snap")]
+    {
+        let kind = spec.kind.expect("kind");
+        let seed = spec.seed.as_ref().expect("seed");
+        let (class, how, dseed) = (spec.aux[0], spec.aux[1], spec.aux[2]);
+        let mut rng = Prng::new(dseed);
+        // the valid image (JSON for structural damage, bincode for byte damage)
+        let fmt = if class < 2 { SnapFmt::Json } else { SnapFmt::Bincode };
+        let img = if let Some(ck) = spec.core {
+            let mut c = match sut(construct_core(ck, seed), "construct_core")? {
+                CoreConstructed::Ok(c, _) => c,
+                CoreConstructed::Err(..) => return Ok(()),
+            };
+            for _ in 0..spec.pre % 4 {
+                sut(guard(|| c.generate()), "generate")?;
+            }
+            sut(guard(|| c.snapshot(fmt)), "core_serialize")?
+        } else {
+            let mut g = match sut(construct(kind, seed), "construct")? {
+                Constructed::Ok(g, _) => g,
+                Constructed::Err(..) => return Ok(()),
+            };
+            let native = if kind.word_bits() == 32 { Call::U32 } else { Call::U64 };
+            for _ in 0..spec.pre {
+                sut(super::c05::do_call(g.as_mut(), native), "pre")?;
+            }
+            sut(guard(|| g.snapshot(fmt)), "serialize")?
+        };
+        let mut img = match img {
+            Some(i) => i,
+            None => return Err(E::End(RunEnd::Discard("not_serialisable".into()))),
+        };
+        let what: &str = match class {
+            0 | 1 => {
+                let mut v: serde_json::Value = serde_json::from_slice(&img).expect("harness: own JSON image");
+                let w = damage_json(&mut v, &mut rng);
+                img = serde_json::to_vec(&v).unwrap();
+                w
+            }
+            2 => {
+                // torn write: the image ends early (or has trailing garbage)
+                if rng.chance(3, 4) {
+                    let k = rng.below(img.len() as u64) as usize;
+                    img.truncate(k);
+                    "torn_image"
+                } else {
+                    let k = rng.range(1, 40) as usize;
+                    let extra = rng.bytes(k);
+                    img.extend_from_slice(&extra);
+                    "trailing_bytes"
+                }
+            }
+            _ => {
+                // flipped stored bytes, biased to the trailing scalars (indices, flags, counters)
+                let flips = rng.range(1, 4);
+                for _ in 0..flips {
+                    let n = img.len();
+                    let i = if rng.chance(1, 2) { n - 1 - rng.below(40.min(n as u64)) as usize } else { rng.below(n as u64) as usize };
+                    img[i] = match rng.below(3) {
+                        0 => 0xff,
+                        1 => img[i] ^ (1 << rng.below(8)),
+                        _ => rng.below(256) as u8,
+                    };
+                }
+                "flipped_bytes"
+            }
+        };
+        st.count(&format!("fault:snapshot_{}", what));
+        let rfmt = match (class < 2, how) {
+            (true, 0) => SnapFmt::Json,
+            (true, 1) => SnapFmt::JsonReader,
+            (true, _) => SnapFmt::JsonValue,
+            (false, 0) => SnapFmt::Bincode,
+            (false, _) => SnapFmt::BincodeReader,
+        };
+        st.sig(&[7, kind.id(), spec.core.is_some() as u64, crate::prng::hstr(what), how]);
+        // the only demand: reading a damaged image back does not panic (Ok and Err are both fine;
+        // nothing is asked of a generator restored from a damaged image)
+        let ok = if let Some(ck) = spec.core {
+            sut(guard(|| crate::gens::restore_core(ck, rfmt, &img).is_ok()), "core_deserialize_damaged")?
+        } else {
+            sut(guard(|| restore(kind, rfmt, &img).is_ok()), "deserialize_damaged")?
+        };
+        st.count(if ok { "probe:damaged_snapshot_accepted" } else { "probe:damaged_snapshot_rejected" });
+        st.log.u64(ok as u64);
+        Ok(())
+    }
 }
 
 fn hostile_jitter_spec(rng: &mut Prng) -> Spec {
@@ -213,6 +463,9 @@ fn run_hostile_det(spec: &Spec, st: &mut Stats) -> Result<(), E> {
             }
             Op::Debug => {
                 sut(guard(|| g.debug()), "debug")?;
+                if spec.ctx != 0 {
+                    sut(guard(|| crate::gens::debug_in_ctx(g.as_ref(), spec.ctx)), "debug_in_ctx")?;
+                }
             }
             Op::Snap(f) => {
                 if let Some(img) = sut(guard(|| g.snapshot(*f)), "serialize")? {
@@ -272,6 +525,9 @@ fn run_hostile_jitter(spec: &Spec, st: &mut Stats) -> Result<(), E> {
                 Op::Fork => g = sut(guard(|| g.boxed_clone()), "clone")?,
                 Op::Debug => {
                     sut(guard(|| g.debug()), "debug")?;
+                    if spec.ctx != 0 {
+                        sut(guard(|| crate::gens::debug_in_ctx(g.as_ref(), spec.ctx)), "debug_in_ctx")?;
+                    }
                 }
                 Op::TestTimer => {
                     st.count("probe:test_timer_in_history");
@@ -305,9 +561,10 @@ impl Scenario for C14 {
         }
     }
     fn generate(&self, rng: &mut Prng, tier: Tier) -> Spec {
-        match rng.below(16) {
+        match rng.below(17) {
             0..=3 => hostile_jitter_spec(rng),
             4..=7 => hostile_det_spec(rng),
+            16 => hostile_snapshot_spec(rng),
             _ => {
                 let id = *rng.pick(&SUBS);
                 let scn = super::scenario(id).expect("sub scenario");
@@ -327,6 +584,7 @@ impl Scenario for C14 {
             st.evals += 1;
             let r = match spec.variant.as_str() {
                 "hostile_jitter" => run_hostile_jitter(spec, st),
+                "hostile_snapshot" => run_hostile_snapshot(spec, st),
                 _ => run_hostile_det(spec, st),
             };
             match r {
